@@ -350,7 +350,6 @@ class HttpParser(abc.ABC, Generic[_MsgT]):
         data_len = len(data)
         start_pos = 0
         loop = self.loop
-        max_line_length = self.max_line_size
 
         # Remembered across calls: whether bytes that follow a closing message
         # are rejected must not depend on where the read boundaries fall.
@@ -384,12 +383,15 @@ class HttpParser(abc.ABC, Generic[_MsgT]):
                     line = data[start_pos:pos]
                     if SEP == b"\n":  # For lax response parsing
                         line = line.rstrip(b"\r")
+                    # The start line is bounded by max_line_size, every later line
+                    # of the block by max_field_size - wherever the read boundaries fall.
+                    max_line_length = (
+                        self.max_field_size if self._lines else self.max_line_size
+                    )
                     if len(line) > max_line_length:
                         raise LineTooLong(line[:100] + b"...", max_line_length)
 
                     self._lines.append(line)
-                    # After processing the status/request line, everything is a header.
-                    max_line_length = self.max_field_size
 
                     if len(self._lines) > self.max_headers:
                         raise BadHttpMessage("Too many headers received")
@@ -533,8 +535,12 @@ class HttpParser(abc.ABC, Generic[_MsgT]):
                     # bytes get appended to this line and leak in the error.
                     if b"\n" in self._tail:
                         raise BadHttpMessage("Bad line ending, expected CRLF")
-                    if len(self._tail) > self.max_line_size:
-                        raise LineTooLong(self._tail[:100] + b"...", self.max_line_size)
+                    max_line_length = (
+                        self.max_field_size if self._lines else self.max_line_size
+                    )
+                    # A trailing CR may be the first half of the line terminator.
+                    if len(self._tail) - self._tail.endswith(b"\r") > max_line_length:
+                        raise LineTooLong(self._tail[:100] + b"...", max_line_length)
                     data = EMPTY
                     break
 
@@ -1030,7 +1036,11 @@ class HttpPayloadParser:
                     max_line_length = self._max_line_size
                     if self._chunk == ChunkState.PARSE_TRAILERS:
                         max_line_length = self._max_field_size
-                    if len(self._chunk_tail) > max_line_length:
+                    # A trailing CR may be the first half of the line terminator.
+                    if (
+                        len(self._chunk_tail) - self._chunk_tail.endswith(b"\r")
+                        > max_line_length
+                    ):
                         raise LineTooLong(
                             self._chunk_tail[:100] + b"...", max_line_length
                         )
